@@ -56,6 +56,7 @@ type Profile struct {
 	PValOperand float64 // operand by value instead of pointer
 	PNamed      float64 // named parameters
 	PDocLines   float64
+	PClone      float64 // an additional clone-style method (same struct type on both sides)
 	NoExecOnly  bool // allow types the exec runtime cannot judge (func/chan are still fine)
 	// Types restricts the alphabet by kind prefix (nil = all).
 	Types []string
@@ -73,7 +74,7 @@ var DefaultMechs = map[string]int{
 func Broad() Profile {
 	return Profile{Name: "broad", MinMethods: 1, MaxMethods: 4, MinFields: 2, MaxFields: 7, MaxDepth: 2,
 		Mechs: DefaultMechs, PToggle: 0.35, PErr: 0.4, PArgStyle: 0.3, PRecv: 0.2, PReverse: 0.3,
-		PExtras: 0.3, PHooks: 0.25, PImportedS: 0.3, PValOperand: 0.3, PNamed: 0.3, PDocLines: 0.3,
+		PExtras: 0.3, PHooks: 0.25, PImportedS: 0.3, PValOperand: 0.3, PNamed: 0.3, PDocLines: 0.3, PClone: 0.08,
 		ConvErrInNoErr: 0.15}
 }
 
@@ -1104,6 +1105,45 @@ func (b *Builder) GenMethod(name string) *Method {
 	return m
 }
 
+// genClone generates a clone-style method: the source and the destination are the SAME struct type,
+// or two local types with identical member lists under :typecast, and no notation addresses a
+// member. The members are still copied one by one (slices into fresh storage).
+func (b *Builder) genClone(name string) *Method {
+	m := &Method{Name: name}
+	s := b.newStruct("", "C")
+	d := s
+	if b.chance(0.4) {
+		d = b.newStruct("", "CD")
+		m.Notations = append(m.Notations, N("typecast"))
+	}
+	if b.chance(0.3) {
+		m.Notations = append(m.Notations, N("style", "arg"))
+	}
+	types := []string{"int", "string", "[]int", "[]string", "[]LInt", "[]*int", "LTags", "[]LInner", "*int", "LInner", "map[string]int", "[][]int", "[]byte", "ext.Tags", "[]ext.Shape"}
+	nf := 2 + b.R.Intn(4)
+	for i := 0; i < nf; i++ {
+		fname := fmt.Sprintf("%s%d", baseWords[b.R.Intn(len(baseWords))], b.next())
+		t := types[b.R.Intn(len(types))]
+		if i == 0 {
+			t = []string{"[]int", "[]string", "LTags", "[]LInner"}[b.R.Intn(4)] // at least one slice
+		}
+		s.Fields = append(s.Fields, FDecl{Name: fname, Type: t})
+		if d != s {
+			d.Fields = append(d.Fields, FDecl{Name: fname, Type: t})
+		}
+		mech := "same"
+		if strings.HasPrefix(t, "[]") || t == "LTags" || t == "ext.Tags" {
+			mech = "slice"
+		}
+		m.Probes = append(m.Probes, Probe{Dst: fname, Mech: mech, DstT: t, SrcT: t, Extra: "clone"})
+	}
+	m.Src.Type, m.Dst.Type = "*"+s.Ref(), "*"+d.Ref()
+	if b.chance(0.2) {
+		m.Src.Type = s.Ref()
+	}
+	return m
+}
+
 // NewBuilder creates a builder for a scenario in directory pkgRel.
 func NewBuilder(r *rand.Rand, p Profile, id, pkgRel string) *Builder {
 	s := &Scenario{ID: id, PkgRel: pkgRel, PkgName: "sc", Files: map[string]string{}, InConv: true}
@@ -1294,6 +1334,9 @@ func GenBroad(r *rand.Rand, p Profile, id, pkgRel string) *Scenario {
 	for i := 0; i < nm; i++ {
 		it.Methods = append(it.Methods, b.GenMethod(fmt.Sprintf("Conv%c%d", 'A'+i, i)))
 	}
+	if r.Float64() < p.PClone {
+		it.Methods = append(it.Methods, b.genClone(fmt.Sprintf("Clone%d", nm)))
+	}
 	if len(b.Pending) > 0 && r.Intn(3) == 0 {
 		// the generated converters live in a second converter interface that sorts before or after the
 		// one referring to them
@@ -1355,6 +1398,7 @@ func Slices() Profile {
 	p.Types = []string{"slice", "named-slice", "int", "string"}
 	p.PToggle = 0.5
 	p.PHooks = 0.05
+	p.PClone = 0.25
 	p.MinFields, p.MaxFields = 3, 8
 	return p
 }
